@@ -174,6 +174,17 @@ theorem wpn_orElse {E : Err → Store → Nat → Prop} (a : α) (Q : α → Sto
   | store k b onErr cont _ ihC => intro s fr; simp only [Prog.orElse, wpn]; rw [ihC]
   | fresh cont ih => intro s fr; simp only [Prog.orElse, wpn]; rw [ih]
 
+theorem wpn_mono {E : Err → Store → Nat → Prop} {Q Q' : α → Store → Nat → Prop}
+    (hQ : ∀ a s fr, Q a s fr → Q' a s fr) :
+    ∀ (p : Prog α) (s : Store) (fr : Nat), wpn E p Q s fr → wpn E p Q' s fr := by
+  intro p
+  induction p with
+  | ret a => intro s fr h; exact hQ _ _ _ h
+  | fail e => intro s fr h; exact h
+  | load k onErr cont _ ihC => intro s fr h; exact ihC _ _ _ h
+  | store k b onErr cont _ ihC => intro s fr h; exact ihC _ _ h
+  | fresh cont ih => intro s fr h; exact ih _ _ _ h
+
 /-! ### stores -/
 
 @[simp] theorem Store.set_same (s : Store) (k : Key) (b : Blob) : s.set k b k = some b := by
@@ -514,7 +525,7 @@ theorem phaseN_renew (c : Cfg) (m : Mem) (s : Store) (fr : Nat) (h : ProvOK c.no
     have h1 := hinv.set_intKey fr (fun i r ra hh => by
       rw [hic, Pair.crt] at hh; cases hh; exact hd)
     have h2 := h1.set_intCrt fr m.root.pub m.root.renewAt (c.now + c.life) (by simp [hrc']) (by simp)
-    refine ⟨⟨?_, ?_, ?_, ?_⟩, ⟨hsg, hkid, rfl, rfl⟩, h2, rfl⟩
+    refine ⟨⟨?_, ?_, ?_, ?_⟩, ⟨hsg, hkid, rfl, rfl⟩, h2, trivial⟩
     · simp [hrc]
     · simp [hrk]
     · simp [Pair.crt, Pair.key]
@@ -529,7 +540,14 @@ theorem wpn_startup (c : Cfg) (s : Store) (fr : Nat) (h : InvAt c.now s) :
     wpn noErr (startup .keyFirst c) (fun m s' _ => Complete s' m ∧ m.Consistent ∧ InvAt c.now s') s fr := by
   unfold startup provision
   rw [wpn_bind, wpn_bind]
-  have hr := phaseN_root c.now c.now s fr h
-  sorry
+  refine wpn_mono ?_ _ _ _ (phaseN_root c.now c.now s fr h)
+  intro root s1 fr1 hroot
+  rw [wpn_bind]
+  refine wpn_mono ?_ _ _ _ (phaseN_inter c.now c.now c.life root s1 fr1 hroot)
+  intro inter s2 fr2 hprov
+  show wpn noErr (renew Order.keyFirst c ⟨root, inter⟩) _ s2 fr2
+  refine wpn_mono ?_ _ _ _ (phaseN_renew c ⟨root, inter⟩ s2 fr2 hprov)
+  intro m s3 _ h3
+  exact ⟨h3.1, h3.2.1, h3.2.2.1⟩
 
 end CaddyModel.C14
